@@ -159,6 +159,11 @@ def main(argv: list[str] | None = None) -> int:
         fin(m, tier, seed)
     scratch.cleanup()
 
+    if os.environ.get("VERIF_KEEP"):
+        d = VERIF_ROOT / ".scratch"
+        d.mkdir(exist_ok=True)
+        (d / f"last-{prop}.json").write_text(json.dumps(
+            {"violations": m["violations"], "counters": m["counters"], "inconclusive": m["inconclusive"]}, default=str))
     findings = load_findings()
     new, known = [], {}
     for v in m["violations"]:
